@@ -47,6 +47,9 @@ func (w *c05World) c19Track(o *c05Op) {
 	case "rDelete":
 		delete(w.apiR, o.R)
 	case "podAdd", "podUpdate":
+		if o.Op == "podUpdate" && o.Old != nil && o.Old.Pod != o.Pod {
+			delete(w.apiP, o.Old.Pod) // the update replaces the old pod by a re-created one: the old object is gone
+		}
 		cp := o.c05PodObj
 		w.apiP[o.Pod] = &cp
 	case "podDelete":
@@ -248,6 +251,9 @@ func TestVerifC19Reservation(t *testing.T) {
 	for i := 0; i < n/2; i++ {
 		c05Run(w, rec, c05LedgerScenario(rng, i%3 == 2))
 		c05Run(w, rec, c05OnceScenario(rng))
+	}
+	for i := 0; i < n/3; i++ {
+		c05Run(w, rec, c05NominateFitScenario(rng))
 	}
 	keys := make([]string, 0, len(c19Stats))
 	for k := range c19Stats {
